@@ -56,7 +56,9 @@ pub struct TreeCase {
 
 fn tree_strat(ctx: &Ctx) -> BoxedStrategy<TreeCase> {
     let huge = ctx.tier == Tier::Thorough;
-    (gens::gt_tree(6, 6, true, huge), vec(any::<u8>(), 0..6)).prop_map(|(tree, trailer)| TreeCase { tree, trailer }).boxed()
+    // 2^24-byte payloads cost ~100 ms per case: keep them to shallow trees in 1 of 400 thorough cases
+    let tree = if huge { prop_oneof![399 => gens::gt_tree(6, 6, true, false), 1 => gens::gt_tree(2, 3, true, true)].boxed() } else { gens::gt_tree(6, 6, true, false) };
+    (tree, vec(any::<u8>(), 0..6)).prop_map(|(tree, trailer)| TreeCase { tree, trailer }).boxed()
 }
 
 pub fn check_tree(c: &TreeCase, obs: &mut Obs) -> Result<(), Fail> {
